@@ -1,6 +1,7 @@
 (* C14 — A claimed allocator is inert until the claim ends, then resumes. *)
 From Coq Require Import ZArith List.
 From BS Require Import Word BumpSpec ChunkSpec Arena ArenaInv ArenaExt.
+From BS.gen Require ClaimFacts.
 Import ListNotations.
 Open Scope Z_scope.
 
@@ -60,6 +61,14 @@ Theorem C14_claimed_shrink_noop :
        else RErr ErrClaimed).
 Proof. exact claimed_shrink_noop. Qed.
 
+(* the shapes behind claiming in the CURRENT source, read out on every run (gen/ClaimFacts.v): claim swaps the CLAIMED dummy into
+   the original handle whatever it held (a second claim panics first); reclaim writes the claimant's chunk pointer back
+   unconditionally and the guard's drop calls it; a handle is claimed / unallocated exactly when its header pointer is
+   one of the two dummies, and as_non_dummy is None for both; reserve refuses a claimed handle before anything else -
+   the steps of the model's OClaim / OUnclaim and the ErrClaimed answers *)
+Theorem C14_source_claim_shapes_are_the_models : ClaimFacts.claim_shapes_ok = true.
+Proof. vm_compute. reflexivity. Qed.
+
 Print Assumptions C14_claimed_requests_fail.
 Print Assumptions C14_claimed_grow_fails.
 Print Assumptions C14_claimed_dealloc_noop.
@@ -68,3 +77,4 @@ Print Assumptions C14_second_claim_panics.
 Print Assumptions C14_claim_unclaim_only_move_the_handle.
 Print Assumptions C14_invariant_through_claims.
 Print Assumptions C14_claimed_shrink_noop.
+Print Assumptions C14_source_claim_shapes_are_the_models.
